@@ -215,7 +215,8 @@ def check_instance(cv, valids, vc, vs, vh, out):
         fail('sizes:max-plus-one-differs', 'S=%s C=%s expected %s %s' % (out['S'], out['C'], S, C))
 
     def get(slot, idx):
-        return _ptok(T[slot][idx])
+        row = T[slot]
+        return _ptok(row[idx]) if idx < len(row) else 'E:no-entry'
 
     def defined(slot, idx, what):
         v = get(slot, idx)
